@@ -286,7 +286,11 @@ def run(ctx):
         "a call counter, are replaced by their order of appearance); repeated runs; restart of a finished run. (b) 2..5 workers: kills with "
         "jobs in flight and generated completion orders, incl. kill after an earlier restart: the jobs in flight as of the last completed step "
         "must be the first jobs issued by the restart; same (seed, schedule, kill) twice gives identical files. "
-        "Non-trivial: (a) split strictly inside, seed != 0, >= 2 accepted moves; (b) >= 1 restart with recorded in-flight jobs. Distinct = digest."
+        "(c) TurtleMD double well (rounded order parameter; sh/wf; cap unset / 0.0 / other; delete_old): straight run vs. chains. (d) the same input twice "
+        "through infretis.bin.internalrun in fresh interpreters with different PYTHONHASHSEED (one- and two-engine layouts). (e) exhaustive small systems "
+        "(checks/enumsys.py): kill + in-memory restart in every reachable state; record = jobs in flight, re-issued first and in order, closure. "
+        "Non-trivial: (a) split strictly inside, seed != 0, >= 2 accepted moves; (b) >= 1 restart with recorded in-flight jobs; (c) seed != 0 and >= 2 accepted "
+        "moves; (d) every pair of completed runs; (e) every explored state. Distinct = digest."
     )
     ctx.assumptions = ["order parameter values are integers (exact at the six decimals of order.txt)",
                        "TurtleMD part: the repository's double-well example with an order parameter rounded to six decimals (the statement's scope condition), allowmaxlength=true"]
@@ -294,6 +298,10 @@ def run(ctx):
     run_property(ctx, "kill", kill_cases, body_kill, ctx.pick(400, 5000), shards=ctx.procs, shrink=not ctx.quick)
     run_property(ctx, "turtlemd", tmd_cases, body_tmd, ctx.pick(48, 480), shards=ctx.procs, shrink=not ctx.quick)
     run_property(ctx, "fresh", fresh_cases, body_fresh, ctx.pick(32, 320), shards=ctx.procs, shrink=False)
+    # exhaustive small systems: a kill + restart in every reachable state (restart record = jobs in flight; re-issued first, in order)
+    from checks import enumsys
+
+    enumsys.run_enum(ctx, {"C03": 1}, ("C06:",), ("pick_lock", "load_paths", "prep"))
 
 
 def replay(ctx, data):
